@@ -36,6 +36,9 @@ type c15Case struct {
 	Bodies     bool // http: @file bodies; json: inline bodies
 	Pad        int  // extra bytes per header value (long lines)
 	SharedDef  bool // the defaults also carry the targets' first header key (X-H0), in a slice with spare capacity
+	// DefVals > 3: that key has this many default values (a long Accept / Cookie list): copies of such slices get
+	// whatever spare capacity the allocator's size classes leave
+	DefVals int `json:",omitempty"`
 	// http: targets that end without a header block follow each other without a blank line, with
 	// comment lines in between (1: at column 0, 2: indented, 3: both)
 	Compact  bool `json:",omitempty"`
@@ -84,7 +87,7 @@ func c15Index(t *vegeta.Target, c c15Case) (int, error) {
 	}
 	if c.SharedDef {
 		got := t.Header["X-H0"]
-		want := []string{"def-a", "def-b", "def-c"}
+		want := c15DefVals(c)
 		if c.Headers > 0 {
 			want = append(want, fmt.Sprintf("v0-%d%s", idx, strings.Repeat("p", c.Pad)))
 		}
@@ -187,11 +190,19 @@ func c15Doc(c c15Case) (text string, cleanup func(), err error) {
 	return doc.String(), cleanup, nil
 }
 
+func c15DefVals(c c15Case) []string {
+	vs := []string{"def-a", "def-b", "def-c"}
+	for i := 3; i < c.DefVals; i++ {
+		vs = append(vs, fmt.Sprintf("def-%d", i))
+	}
+	return vs
+}
+
 func c15Defaults(c c15Case) http.Header {
 	defHdr := http.Header{"X-Default": []string{"d"}}
 	if c.SharedDef { // built like three -header flags: append leaves spare capacity
 		var vs []string
-		for _, v := range []string{"def-a", "def-b", "def-c"} {
+		for _, v := range c15DefVals(c) {
 			vs = append(vs, v)
 		}
 		defHdr["X-H0"] = vs
@@ -441,12 +452,18 @@ func TestC15Concurrent(t *testing.T) {
 				c.Headers = rapid.IntRange(0, 4).Draw(t, "headers")
 				c.Bodies = rapid.Bool().Draw(t, "bodies")
 				c.SharedDef = rapid.Bool().Draw(t, "shareddef")
+				if c.SharedDef && rapid.IntRange(0, 2).Draw(t, "manydefvals") == 0 {
+					c.DefVals = rapid.SampledFrom([]int{5, 17, 19, 21, 33, 35, 65}).Draw(t, "defvals")
+				}
 			}
 		} else {
 			c.Targets = int(math.Exp(rapid.Float64Range(0, math.Log(5000)).Draw(t, "logn")))
 			c.Headers = rapid.IntRange(0, 4).Draw(t, "headers")
 			c.Bodies = rapid.Bool().Draw(t, "bodies")
 			c.SharedDef = rapid.Bool().Draw(t, "shareddef")
+			if c.SharedDef && rapid.IntRange(0, 2).Draw(t, "manydefvals") == 0 {
+				c.DefVals = rapid.SampledFrom([]int{5, 17, 19, 21, 33, 35, 65}).Draw(t, "defvals")
+			}
 			if rapid.IntRange(0, 2).Draw(t, "eofchunk") == 0 {
 				c.EOFChunk = rapid.SampledFrom([]int{1 << 30, 4096, 100, 7, 1, 2, 3}).Draw(t, "eofchunkn")
 			}
